@@ -1,8 +1,11 @@
 """
 Whole-image oracle: the real RasterFuse.process (reference-grid processing; gain, gain-offset without in-painting;
-nearest / bilinear up-sampling; 1..many blocks; random, unrelated source / reference data with holes) against the Lean
-model's `ImagePair.corrected` (Model/FuseImage.lean) evaluated on the same pixels in exact rationals (`fuseimg` op):
-validity masks must agree exactly, values to a float32 budget (gain 2e-5, gain-offset 5e-3 relative).
+nearest / bilinear / cubic / cubic_spline up-sampling; 1..many blocks; random, unrelated source / reference data with holes)
+against the Lean model's `ImagePair.corrected` / `correctedWide` (Model/FuseImage.lean, Model/Cubic.lean) evaluated on the
+same pixels in exact rationals (`fuseimg` op): validity masks must agree exactly, values to a float32 budget (gain 2e-5,
+gain-offset 5e-3 relative).  With the 4 x 4 kernels (cubic, cubic_spline - the default) a multi-block run is compared at the
+pixels theorem `block_transparent_wide` covers: those whose centre's reference pixel is not the first or last row / column
+of a block's output window next to another block.
 """
 import numpy as np
 
@@ -10,6 +13,27 @@ import common
 import fusion
 import rasters
 import resamp
+
+
+def seam_pixels(pair, src, ref, mbm):
+    """(src.h, src.w) bool: the reference pixel containing the source pixel's centre is the first or last row / column of a
+    block's output window where another block follows (block windows as the code makes them; C06 checks those)"""
+    import warnings
+    from homonim import RasterFuse
+    from homonim.enums import ProcCrs
+    with warnings.catch_warnings():
+        warnings.simplefilter('ignore')
+        with RasterFuse(pair.src_path, pair.ref_path, proc_crs=ProcCrs.ref) as rf:
+            bps = list(rf.block_pairs(overlap=(0, 0), max_block_mem=mbm))
+    out = []
+    for axis, (S, R) in enumerate(((src.row_axis, ref.row_axis), (src.col_axis, ref.col_axis))):
+        los = {(bp.ref_out_block.row_off if axis == 0 else bp.ref_out_block.col_off) for bp in bps}
+        his = {(bp.ref_out_block.row_off + bp.ref_out_block.height if axis == 0 else
+                bp.ref_out_block.col_off + bp.ref_out_block.width) for bp in bps}
+        inner = los & his            # where one block ends and the next begins
+        near = np.array([(2 * (S[0] + j * S[1] - R[0]) + S[1]) // (2 * R[1]) for j in range(S[2])])
+        out.append(np.array([any(i in (b - 1, b) for b in inner) for i in near], bool))
+    return out[0][:, None] | out[1][None, :], len(bps)
 
 
 def whole_image_leg(run: common.Run, n, blocks=(0,), base=700_000, src_grid=True):
@@ -49,6 +73,10 @@ def whole_image_leg(run: common.Run, n, blocks=(0,), base=700_000, src_grid=True
             grid = 'ref'
         model = ['gain', 'gain-offset'][k % 2]
         ups = ['bilinear', 'nearest'][(k // 2) % 2]
+        if grid == 'ref' and k % 8 >= 4:
+            ups = ['cubic_spline', 'cubic'][(k // 2) % 2]
+            if ups == 'cubic' and rasters.noisy_edges('dyadic', src.px, ref.px) and resamp.centre_centre_tie_mask(ref, src).any():
+                ups = 'cubic_spline'     # cubic's fall-back next to invalid pixels is decided by float noise at such centres
         # equal resolutions: the code treats parameters -> source grid as down-sampling and uses the down-sampling method
         ups_model = 'average' if src.px == ref.px else ups
         kern = [(3, 3), (5, 5), (3, 5), (5, 3), (1, 1)][k % 5] if model == 'gain' else [(5, 5), (3, 5), (5, 3)][k % 3]
@@ -102,6 +130,12 @@ def whole_image_leg(run: common.Run, n, blocks=(0,), base=700_000, src_grid=True
             run.nontrivial.add(('fuseimg', k, hv))
             a = res.corr[0].astype('float64')
             mm, im = np.isfinite(m), np.isfinite(a)
+            if hv and ups in ('cubic', 'cubic_spline'):
+                seam, nblk = seam_pixels(pair, src, ref, fusion.block_mem_for(hv, ph, pw, src.px, ref.px, proc_ref))
+                run.hist['whole-image model: 4x4 kernel, multi-block: seam pixels not compared'] += int(seam.sum())
+                run.hist['whole-image model: 4x4 kernel, multi-block: pixels compared'] += int((~seam).sum())
+                # validity never depends on the partition (it is the nearest parameter pixel's), values do at the seams
+                m = np.where(seam & mm, a, m)
             if not np.array_equal(mm, im):
                 d = np.argwhere(mm != im)[0].tolist()
                 run.disagree(case, line[:200], f'valid={bool(mm[tuple(d)])} at {d}', f'valid={bool(im[tuple(d)])}',
